@@ -139,6 +139,10 @@ def tasks(ctx):
     t = LemmaTask("lemma:readback-sound", ac.readback_lemmas, [ac.A + "Write" + r for r in ac.MASKS] + [ac.A + "Read" + r for r in ac.MASKS])
     t.keep = lambda name: "lemma:readback:" in name or "canary" in name
     ts.append(t)
+    # ... and keeps reading them back: no other register write (trigger, power, length) rewrites a field that backs a readable bit -
+    # the frame clauses of the sound register handlers and trigger functions (C19's contracts)
+    names = {x.name for x in ts}
+    ts += [x for x in ac.register_semantics_tasks(ctx) if x.name not in names]
     return filter_tasks(ts)
 
 
